@@ -74,6 +74,9 @@ def relayout(a, layout):
             return buf[:, 0]  # 1-D: column of a 2-column buffer (strided, not owning)
         buf = np.ascontiguousarray(a.transpose(tuple(reversed(range(a.ndim)))))
         return buf.transpose(tuple(reversed(range(a.ndim))))
+    if layout == "negstride":  # reversed view of a reversed copy: negative strides on every axis
+        rev = tuple(slice(None, None, -1) for _ in a.shape)
+        return np.ascontiguousarray(a[rev])[rev]
     if layout == "strided":  # every other element of a larger buffer, offset 1, sentinel in between
         big = np.full(tuple(2 * s + 1 for s in a.shape), SENTINEL if a.dtype.kind != "b" else True, dtype=a.dtype)
         sl = tuple(slice(1, 2 * s + 1, 2) for s in a.shape)
@@ -281,8 +284,8 @@ def compare(node, path, diffs, counters, seen=None):
         items = node["items"]
         if type(ref) is list:
             if len(ref) != len(items):
-                diffs.append((path, "list-length-changed", f"len {len(items)} -> {len(ref)}; before={[_describe(n['ref']) for n in items]} "
-                                                            f"after={[_describe(o) for o in ref]}"))
+                diffs.append((path, "list-length-changed", f"len {len(items)} -> {len(ref)}; before=[{', '.join(_describe(n['ref']) for n in items)}] "
+                                                            f"after=[{', '.join(_describe(o) for o in ref)}]"))
             else:
                 for i, (o, n) in enumerate(zip(ref, items)):
                     _slot(o, n, path + [i], diffs, counters)
